@@ -274,9 +274,9 @@ Proof.
       * cbn [relation_set_version]. rbind; [apply runs_get_reg; exact Hr|].
         rbind; [eapply runs_node_of; [exact HT|exact HG]|]. cbn [children]. rewrite E. exact R.
       * now rewrite replace_at_split.
-    + apply reroot_node_op. intros ts rs r tid ri T p Hr HT HG st' R.
+    + apply insert_fresh_node_op; [apply version_pos_le|]. intros ts rs r tid ri T p Hr HT HG st' R.
       cbn [relation_set_version]. rbind; [apply runs_get_reg; exact Hr|].
-      rbind; [eapply runs_node_of; [exact HT|exact HG]|]. cbn [children]. rewrite E. exact R.
+      rbind; [eapply runs_node_of; [exact HT|exact HG]|]. cbn [children]. rewrite E. cbn [fx_in_place fixed]. exact R.
   - apply node_op_from_F. intros ts rs r tid ri T p Hr HT HG.
     destruct (drop_constraint_spec_gen k cs ts rs r tid ri T p Hr HT HG) as (ts' & F & b & R & T' & A).
     exists ts', F. split; [|split; [exact T'|exact A]].
@@ -284,27 +284,35 @@ Proof.
 Qed.
 
 Lemma set_architectures_node_op_gen a k cs :
-  node_op (fun r => relation_set_architectures r a) (Node k cs) (Node k (set_architectures_cs a cs)).
+  node_op (fun r => relation_set_architectures_v fixed r a) (Node k cs) (Node k (set_architectures_cs a cs)).
 Proof.
   unfold set_architectures_cs. destruct (find_index (node_is ARCHITECTURES) cs) as [i|] eqn:E.
   - apply node_op_from_F. intros ts rs r tid ri T p Hr HT HG.
     destruct (find_index_split _ _ _ E) as (pre & x & post & -> & <- & _).
     destruct (splice_new_replace_spec ts rs r tid ri T p k pre x post (architectures_node a) Hr HT HG) as (ts' & F & R & T' & A).
     exists ts', F. split; [|split; [|exact A]].
-    + unfold relation_set_architectures. rbind; [apply runs_get_reg; exact Hr|].
+    + unfold relation_set_architectures_v. rbind; [apply runs_get_reg; exact Hr|].
       rbind; [eapply runs_node_of; [exact HT|exact HG]|]. cbn [children]. rewrite E. exact R.
     + now rewrite replace_at_split.
-  - apply reroot_node_op. intros ts rs r tid ri T p Hr HT HG st' R.
-    unfold relation_set_architectures. rbind; [apply runs_get_reg; exact Hr|].
-    rbind; [eapply runs_node_of; [exact HT|exact HG]|]. cbn [children]. rewrite E. exact R.
+  - apply insert_fresh_node_op; [apply architectures_pos_le|]. intros ts rs r tid ri T p Hr HT HG st' R.
+    unfold relation_set_architectures_v. rbind; [apply runs_get_reg; exact Hr|].
+    rbind; [eapply runs_node_of; [exact HT|exact HG]|]. cbn [children]. rewrite E. cbn [fx_in_place fixed]. exact R.
 Qed.
 
-Lemma add_profile_node_op_gen g k cs :
-  node_op (fun r => relation_add_profile r g) (Node k cs) (Node k (add_profile_cs g cs)).
+Lemma last_index_lt {A} (p : A -> bool) l i : last_index p l = Some i -> i < length l.
 Proof.
-  apply reroot_node_op. intros ts rs r tid ri T p Hr HT HG st' R.
-  unfold relation_add_profile. rbind; [apply runs_get_reg; exact Hr|].
-  rbind; [eapply runs_node_of; [exact HT|exact HG]|]. exact R.
+  revert i; induction l as [|x r IH]; intros i H; [discriminate|]. cbn [last_index] in H.
+  destruct (last_index p r) as [j|]; [injection H as <-; specialize (IH j eq_refl); cbn; lia|].
+  destruct (p x); [injection H as <-; cbn; lia|discriminate].
+Qed.
+Lemma add_profile_node_op_gen g k cs :
+  node_op (fun r => relation_add_profile_v fixed r g) (Node k cs) (Node k (add_profile_cs g cs)).
+Proof.
+  unfold add_profile_cs. apply insert_fresh_node_op.
+  { destruct (last_index (node_is PROFILES) cs) as [i|] eqn:E; [apply last_index_lt in E; lia|lia]. }
+  intros ts rs r tid ri T p Hr HT HG st' R.
+  unfold relation_add_profile_v. rbind; [apply runs_get_reg; exact Hr|].
+  rbind; [eapply runs_node_of; [exact HT|exact HG]|]. cbn [children fx_in_place fixed]. exact R.
 Qed.
 
 (* a local operation on the relation in register 2, after [OGetEntry 0 i; OGetRel 0 0 j] *)
@@ -415,49 +423,6 @@ Proof.
   - exact T'.
 Qed.
 
-(* ------------------------------------------------------------------ Entry::push through a fresh handle, any tree *)
-Lemma epush_runs_gen k epre E epost G ts tid ri b c tr rr :
-  nth_error ts tid = Some (mk_slot true ri (Node k (epre ++ E :: epost))) ->
-  nth_error ts tr = Some (mk_slot true rr G) ->
-  exists ts' a' b' c' x,
-    runs (run_op fixed (OEPush 0 1))
-         (st5 ts (mk_hnd tid []) (Some (mk_hnd tid [length epre])) b c (Some (mk_hnd tr []))) x
-         (st5 ts' (mk_hnd tid []) a' b' c' None) /\
-    nth_error ts' tid = Some (mk_slot true ri (Node k (epre ++ entry_push_green E G :: epost))).
-Proof.
-  intros HT HR. set (T := Node k (epre ++ E :: epost)) in *.
-  assert (HG : get_path T [] = Some (Node k (epre ++ E :: epost))) by reflexivity.
-  assert (HGe : get_path T [length epre] = Some E) by (cbn [get_path T children]; now rewrite nth_error_app_len).
-  pose proof (nth_error_Some_lt _ _ _ HT) as Hlt.
-  set (rs := [Some (mk_hnd tid []); Some (mk_hnd tid ([] ++ [length epre])); b; c; Some (mk_hnd tr [])]).
-  assert (Hnode : is_node (entry_push_green E G) = true).
-  { unfold entry_push_green. destruct (entry_push_plan (children E) G). reflexivity. }
-  destruct (reroot_spec ts rs 1 tid ri T [] k epre E epost (entry_push_green E G) eq_refl HT HG Hnode)
-    as (ts' & rs' & R & L & T' & S & A).
-  destruct (list5 rs' L) as (x0 & x1 & x2 & x3 & x4 & ->).
-  pose proof (A 0 (mk_hnd tid []) ltac:(lia) eq_refl Hlt (above_root _ _ _)) as E0.
-  cbn [nth_error] in E0, S. inversion E0; subst x0. inversion S; subst x1.
-  exists ts', (Some (mk_hnd tid ([] ++ [length epre]))), x2, x3. eexists. split.
-  - cbn [run_op]. change (rreg 1) with 4. change (ereg 0) with 1. unfold st5.
-    eapply runs_with_reg_some; [reflexivity|].
-    rbind; [apply runs_has_reg|]. cbn [nth_error].
-    rbind.
-    { unfold entry_push. rbind; [apply runs_get_reg; reflexivity|].
-      rbind; [eapply runs_node_of; [exact HT|exact HGe]|].
-      rbind; [unfold node_of_reg; rbind; [apply runs_get_reg; reflexivity|]; eapply runs_node_of; [exact HR|reflexivity]|].
-      cbn [s_tree fx_entry_push fixed].
-      rbind; [rdone|].
-      rbind; [exact R|]. apply runs_set_reg. }
-    cbn [set_reg_l]. unfold reg_text, node_of_reg.
-    rbind.
-    { rbind.
-      { rbind; [apply runs_get_reg; reflexivity|]. eapply runs_node_of; [exact T'|].
-        cbn [app s_tree get_path upd_path children]. rewrite nth_error_app_len. reflexivity. }
-      rdone. }
-    rdone.
-  - exact T'.
-Qed.
-
 (* ------------------------------------------------------------------ one abstract operation, on any tree *)
 (* operands built by the constructors; (Entry::replace is treated separately below) *)
 Definition operands_new (o : aop) : bool :=
@@ -484,25 +449,25 @@ Proof.
 Qed.
 
 Theorem op_step_tree o T T' st :
-  operands_new o = true -> holds st T -> t_op o T = Ok T' ->
+  operands_new o = true -> is_node T = true -> holds st T -> t_op o T = Ok T' ->
   exists st', run_ops fixed (compile o) st = Ok st' /\ holds st' T'.
 Proof.
-  intros Hn (ts & tid & ri & a & b & c & d & -> & HT) Ht.
+  intros Hn HnT (ts & tid & ri & a & b & c & d & -> & HT) Ht.
   destruct o; cbn [operands_new] in Hn; try discriminate; cbn [t_op] in Ht.
   - (* push *)
-    injection Ht as <-.
+    injection Ht as <-. destruct T as [kT sT|kT csT]; [discriminate|].
     destruct (new_entry_runs e ts tid ri _ a b c d Hn HT) as (ts1 & te & txt & R1 & T1 & E1 & Ne).
+    destruct (push_runs ts1 tid ri kT csT a b d te [] _ (centry_tree e) T1 E1 eq_refl) as (ts2 & a2 & b2 & d2 & R2 & T2).
     eexists. split.
-    + cbn [compile]. eapply run_ops_cons; [exact R1|]. eapply run_ops_cons; [|reflexivity].
-      eapply push_runs; [exact T1|exact E1].
-    + eapply holds_st5. apply nth_error_app_at.
+    + cbn [compile]. eapply run_ops_cons; [exact R1|]. eapply run_ops_cons; [exact R2|reflexivity].
+    + eapply holds_st5. exact T2.
   - (* insert *)
-    injection Ht as <-.
+    injection Ht as <-. destruct T as [kT sT|kT csT]; [discriminate|].
     destruct (new_entry_runs e ts tid ri _ a b c d Hn HT) as (ts1 & te & txt & R1 & T1 & E1 & Ne).
+    destruct (insert_runs i ts1 tid ri kT csT a b d te [] _ (centry_tree e) T1 E1 eq_refl) as (ts2 & a2 & b2 & d2 & R2 & T2).
     eexists. split.
-    + cbn [compile]. eapply run_ops_cons; [exact R1|]. eapply run_ops_cons; [|reflexivity].
-      eapply insert_runs; [exact T1|exact E1].
-    + eapply holds_st5. apply nth_error_app_at.
+    + cbn [compile]. eapply run_ops_cons; [exact R1|]. eapply run_ops_cons; [exact R2|reflexivity].
+    + eapply holds_st5. exact T2.
   - (* replace *)
     destruct (entry_pos T i) as [ci|] eqn:Ep; [|discriminate]. injection Ht as <-.
     destruct (entry_pos_split _ _ _ Ep) as (k & pre & E & post & -> & <- & PE).
@@ -528,8 +493,9 @@ Proof.
     destruct (new_rel_runs r ts tid ri _ a b c d Hn HT) as (txt & R1 & Ne).
     pose proof (get_entry_runs_gen _ i (length pre) (ts ++ [mk_slot true 0 (crel_tree r)]) tid ri a b c
                   (Some (mk_hnd (length ts) [])) (nth_error_app_l _ _ _ _ HT) Ep) as R2.
-    destruct (epush_runs_gen k pre E post (crel_tree r) (ts ++ [mk_slot true 0 (crel_tree r)]) tid ri b c (length ts) 0
-                (nth_error_app_l _ _ _ _ HT) (nth_error_app_at _ _)) as (ts3 & a3 & b3 & c3 & x & R3 & T3).
+    destruct (is_entry_node _ PE) as (ecs & ->).
+    destruct (epush_runs_gen k pre ENTRY ecs post (crel_tree r) (ts ++ [mk_slot true 0 (crel_tree r)]) tid ri b c (length ts) [] _
+                (nth_error_app_l _ _ _ _ HT) (nth_error_app_at _ _) eq_refl) as (ts3 & a3 & b3 & c3 & x & R3 & T3).
     eexists. split.
     + cbn [compile]. eapply run_ops_cons; [exact R1|]. eapply run_ops_cons; [exact R2|].
       eapply run_ops_cons; [exact R3|reflexivity].
@@ -574,11 +540,11 @@ Proof.
       eauto using holds_st5, set_archqual_node_op_gen.
     apply (wraps_through (OSetArchqual 0 q) (fun r => relation_set_archqual r q) eq_refl).
   - (* set_architectures *)
-    cbn [compile]. eapply (on_relation_step (fun r => relation_set_architectures r a0) (OSetArchs 0 a0));
+    cbn [compile]. eapply (on_relation_step (fun r => relation_set_architectures_v fixed r a0) (OSetArchs 0 a0));
       eauto using holds_st5, set_architectures_node_op_gen.
-    apply (wraps_through (OSetArchs 0 a0) (fun r => relation_set_architectures r a0) eq_refl).
+    apply (wraps_through (OSetArchs 0 a0) (fun r => relation_set_architectures_v fixed r a0) eq_refl).
   - (* add_profile *)
-    cbn [compile]. eapply (on_relation_step (fun r => relation_add_profile r g) (OAddProfile 0 g));
+    cbn [compile]. eapply (on_relation_step (fun r => relation_add_profile_v fixed r g) (OAddProfile 0 g));
       eauto using holds_st5, add_profile_node_op_gen.
-    apply (wraps_through (OAddProfile 0 g) (fun r => relation_add_profile r g) eq_refl).
+    apply (wraps_through (OAddProfile 0 g) (fun r => relation_add_profile_v fixed r g) eq_refl).
 Qed.
